@@ -543,6 +543,18 @@ class SymNum:
         return 0x5EED
 
     # -- conversions --------------------------------------------------------
+    def bit_length(self):
+        """int.bit_length(): forks over the (at most 65) possible answers"""
+        self._need_int()
+        c = self.concrete()
+        if c is not None:
+            return int(c).bit_length()
+        mag = SymNum(z3.If(self.t >= 0, self.t, -self.t))
+        for k in range(0, 65):
+            if bool(mag < (1 << k)):
+                return k
+        raise Unsupported("bit_length of an integer beyond 64 bits")
+
     def is_integer(self):
         """float.is_integer / int.is_integer: a decision on symbolic reals"""
         if self.is_int:
